@@ -2,13 +2,15 @@
 C06 — Text format output reads back to the same structure.
 
 Property theorems only.  Models: Emboss/Model/Text.lean (integer codec, tokenizer),
-Emboss/Model/TextTree.lean (value/struct/array writer and reader);
-spec: Emboss/Spec/Text.lean; helper lemmas: Emboss/Lemmas/Text*.lean.
+Emboss/Model/TextTree.lean (value/struct/array writer), Emboss/Model/TextRead.lean (reader),
+Emboss/Model/TextStruct.lean, TextLayout.lean (abstract structure round trip);
+spec: Emboss/Spec/Text*.lean; helper lemmas: Emboss/Lemmas/Text*.lean.
 -/
 import Emboss.Lemmas.TextIntWrite
 import Emboss.Lemmas.TextWrite
 import Emboss.Lemmas.TextStruct
 import Emboss.Lemmas.TextLayout
+import Emboss.Lemmas.TextRoundNeg
 import Emboss.Model.TextRead
 namespace Emboss.Text
 open Spec Emboss.Deps
@@ -20,10 +22,8 @@ supports and both grouping settings: `DecodeInteger` applied to what
 `WriteIntegerToTextStream` wrote yields the value.  (All values: induction over the
 writer's digit recursion, `writeLoop_value`; includes `lowest()`.) -/
 theorem C06_int_roundtrip (T : IntTy) (x : Int) (base : Base) (grouping : Bool)
-    (hx : T.InRange x) : decodeInt T (writeInt T x base grouping) = some x := by
-  obtain ⟨h1, h2⟩ := writeInt_textValue T x base grouping hx
-  rw [decodeInt_eq, if_neg h1, h2]
-  simp [inRangeOnly, hx]
+    (hx : T.InRange x) : decodeInt T (writeInt T x base grouping) = some x :=
+  decodeInt_writeInt T x base grouping hx
 
 /-- Non-vacuity / tests (`decide` over literals): INT64_MIN in binary with grouping, and
 its text. -/
@@ -96,7 +96,10 @@ fields as comments) and every *re-readable* option set — `O_rr` = {single-line
 `ReadToken` applied repeatedly to `WriteToString`'s text yields exactly the tokens the writer
 emitted (names, `:`, `{`, `}`, `[`, `]`, `,`, numbers, enum names, …), comments and white
 space dropped.  Single-line output *with* comments is excluded (`Opts.Rereadable`): a `#`
-comment swallows the rest of the line, see `C06_single_line_comments_counterexample`. -/
+comment swallows the rest of the line, see `C06_single_line_comments_counterexample`.
+The value tree may hold unreadable atomic fields / elements (`skip` nodes: the text of a view
+that is not `Ok`, written with `allow_partial_output`): they contribute no tokens, only
+`UNREADABLE` comments. -/
 theorem C06_tokens_roundtrip (o : Opts) (v : TVal) (ho : o.Rereadable) (hv : v.WF) :
     tokens (writeToString o v) = some (toks (writeVal o v)) := by
   have := tokens_of_wellSep (writeVal o v) .other ((render (writeVal o v)).length + 1)
@@ -283,6 +286,180 @@ example : order exVDeps [7] [0, 1, 2] = [2, 1, 0] ∧ TopoFrom exVDeps [7] [2, 1
   refine ⟨by decide, by decide, by decide, ?_, by decide, by decide⟩
   exact .step (m := 1) (by decide) (.direct (by decide))
 
+/-! ## Reader ∘ tokenizer ∘ writer at the text level
+
+`updateFromText` (= `ReadToken`/`DiscardWhitespace` + the integer/enum/boolean/array/struct
+readers) applied to `writeToString`'s characters.  Composition of `C06_tokens_roundtrip`'s two
+halves (the writer's pieces are well separated, `wellSep_val`; well separated pieces are read
+token by token, here step by step: `At.word`, `At.punct`, `At.skip`), of `C06_int_roundtrip`
+(every number token decodes to the value written, also through the enum reader's
+`uint64_t`/`int64_t` detour) and of the reader model, by mutual structural induction over the
+value tree along the reader's success path (`read_val`, `read_elemsSL`, `read_elemsML`,
+`read_fields` in Emboss/Lemmas/TextRound.lean). -/
+
+/-- FULL STATEMENT (false, see `C06_array_multiline_counterexample`): for every value tree `v`
+of static shape `s` (struct of integers / enums / booleans / float texts / nested structs /
+fixed-size arrays; `Matches s v`) and every re-readable option set, `UpdateFromText` applied to
+`WriteToString`'s text succeeds, and its `TryToWrite` calls are exactly the emitted leaves of
+`v` — each path with its own value, in text order (`writesVal`); only white space and comments
+are left unread.
+Proved here under `noMultilineArray o v`: in multi-line mode no array has two or more elements
+(open finding `multiline-array-elements-not-comma-separated`: the multi-line writer puts no `,`
+between elements, the array reader insists on one).  Single-line arrays of any length, and
+multi-line arrays with at most one written element, are covered; nothing else is excluded.
+Trees with unreadable atomic leaves (`skip` nodes; `allow_partial_output` on a view that is not
+`Ok`) are included: their text is re-read too and yields exactly the *readable* leaves, each at
+its own path — an array element after a skipped one keeps its index because the single-line
+writer then emits an explicit `[i]:` (`skipped_unreadable`), the multi-line writer always. -/
+theorem C06_text_roundtrip_partial (o : Opts) (v : TVal) (s : RShape) (ho : o.Rereadable)
+    (hv : v.WF) (hm : Matches s v) (hml : noMultilineArray o v) :
+    ∃ rest, updateFromText s (writeToString o v) = .ok (writesVal [] v) rest ∧
+      discardWs false rest = [] :=
+  updateFromText_writeToString o v s ho hv hm hml
+
+/-- The hypothesis of `C06_text_roundtrip_partial` is exact, and outside it the failure is a
+clean rejection: for a well-formed tree of static shape and re-readable options the reader model
+applied to the writer model's text either returns the emitted leaves (iff `noMultilineArray o v`)
+or *fails* (`UpdateFromText` returns false: iff some array with two or more elements is written
+in multi-line mode) — it never returns other values and never runs out of fuel.  The failing
+side is the open finding `multiline-array-elements-not-comma-separated`; the same induction as
+the positive part, up to the first element of the first such array, where `afterElem` meets the
+`[` of the next index marker (`neg_val`, `neg_elemsML`, `neg_fields`). -/
+theorem C06_text_roundtrip_hypothesis_exact (o : Opts) (v : TVal) (s : RShape) (ho : o.Rereadable)
+    (hv : v.WF) (hm : Matches s v) :
+    (noMultilineArray o v ↔
+      ∃ rest, updateFromText s (writeToString o v) = .ok (writesVal [] v) rest ∧
+        discardWs false rest = []) ∧
+    (¬ noMultilineArray o v ↔ updateFromText s (writeToString o v) = .fail) := by
+  have hpos := updateFromText_writeToString o v s ho hv hm
+  have hneg := updateFromText_writeToString_fail o v s ho hv hm
+  constructor
+  · constructor
+    · exact hpos
+    · intro ⟨rest, h, _⟩
+      apply Classical.byContradiction
+      intro hn
+      rw [hneg hn] at h
+      cases h
+  · constructor
+    · exact hneg
+    · intro h hml
+      obtain ⟨rest, h', _⟩ := hpos hml
+      rw [h] at h'
+      cases h'
+
+/-! Non-vacuity: `exTree` (integer, read-only virtual field, enum by name, two-element `UInt:8`
+array, boolean) has the static shape `exShape`; single-line, base 16: the hypotheses hold and the
+reader model returns the five emitted leaves.  `exTreeML`: an enum by number (negative, signed
+16-bit type), a one-element array and a nested struct, multi-line with comments. -/
+def exShape : RShape :=
+  .struct (.cons "f".toList (.scalar .bool)
+    (.cons "xs".toList (.arr 2 (.scalar (.int .u8 0 255)))
+    (.cons "e".toList (.scalar (.enumR [("RED".toList, 1), ("BLUE".toList, 2)] .u8 0 255))
+    (.cons "n".toList (.scalar (.int .u8 0 255)) .nil))))
+
+example : exOptsSL.Rereadable ∧ exTree.WF ∧ Matches exShape exTree ∧ noMultilineArray exOptsSL exTree := by
+  refine ⟨⟨by decide, by decide, by decide⟩, ?_, ?_, by intro h; cases h⟩
+  · simp [exTree, TVal.WF, TFields.WF, TVals.WF, Scalar.WF, ValidWord, isDelim, isSpace, isPunct]
+  · exact ⟨⟨_, rfl, rfl, by decide, by decide, by decide⟩,
+      ⟨_, rfl, rfl, ⟨by decide, by decide⟩, rfl, by decide, by decide⟩,
+      ⟨_, rfl, rfl, by decide, ⟨rfl, by decide, by decide, by decide⟩,
+        ⟨rfl, by decide, by decide, by decide⟩, trivial⟩,
+      ⟨_, rfl, trivial⟩, trivial⟩
+
+example : updateFromText exShape (writeToString exOptsSL exTree) =
+    .ok [("n".toList, .int 2), ("e".toList, .int 1), ("xs[0]".toList, .int 72),
+      ("xs[1]".toList, .int 105), ("f".toList, .bool true)] [] ∧
+    writesVal [] exTree = [("n".toList, .int 2), ("e".toList, .int 1), ("xs[0]".toList, .int 72),
+      ("xs[1]".toList, .int 105), ("f".toList, .bool true)] := by decide +kernel
+
+def exTreeML : TVal :=
+  .struct (.cons "k".toList false (.scalar (.enumV none .i16 (-5)))
+    (.cons "xs".toList false (.arr true (.cons (.scalar (.int .u8 72)) .nil))
+    (.cons "s".toList false (.struct (.cons "b".toList false (.scalar (.bool false)) .nil)) .nil)))
+def exShapeML : RShape :=
+  .struct (.cons "k".toList (.scalar (.enumR [("POS".toList, 7)] .i16 (-32768) 32767))
+    (.cons "xs".toList (.arr 1 (.scalar (.int .u8 0 255)))
+    (.cons "s".toList (.struct (.cons "b".toList (.scalar .bool) .nil)) .nil)))
+
+example : exOptsML.Rereadable ∧ exTreeML.WF ∧ Matches exShapeML exTreeML ∧
+    noMultilineArray exOptsML exTreeML := by
+  refine ⟨⟨by decide, by decide, by decide⟩, ?_, ?_, ?_⟩
+  · simp [exTreeML, TVal.WF, TFields.WF, TVals.WF, Scalar.WF, ValidWord, isDelim, isSpace, isPunct]
+  · exact ⟨⟨_, rfl, rfl, by decide, by decide, by decide⟩,
+      ⟨_, rfl, rfl, by decide, ⟨rfl, by decide, by decide, by decide⟩, trivial⟩,
+      ⟨_, rfl, ⟨_, rfl, trivial⟩, trivial⟩, trivial⟩
+  · intro _
+    exact ⟨trivial, ⟨by decide, trivial, trivial⟩, ⟨trivial, trivial⟩, trivial⟩
+
+/-! Non-vacuity with unreadable leaves (a view that is not `Ok`, written with
+`allow_partial_output`): `exTreeP` = `{ n, bad (unreadable), xs = [1, unreadable, 3, unreadable] }`.
+Single-line: the element after a skipped one carries its index, the text is re-read and yields
+exactly the readable leaves at their own paths.  Multi-line with comments: the unreadable
+element / field are mentioned in comments only. -/
+def exTreeP : TVal :=
+  .struct (.cons "n".toList false (.scalar (.int .u8 2))
+    (.skip "bad".toList
+    (.cons "xs".toList false (.arr false (.cons (.scalar (.int .u16 1)) (.skip
+      (.cons (.scalar (.int .u16 3)) (.skip .nil))))) .nil)))
+def exShapeP : RShape :=
+  .struct (.cons "n".toList (.scalar (.int .u8 0 255))
+    (.cons "bad".toList (.scalar (.int .u8 0 9))
+    (.cons "xs".toList (.arr 4 (.scalar (.int .u16 0 65535))) .nil)))
+
+example : exOptsSL.Rereadable ∧ exTreeP.WF ∧ Matches exShapeP exTreeP ∧
+    noMultilineArray exOptsSL exTreeP ∧ ¬ noMultilineArray exOptsML exTreeP := by
+  refine ⟨⟨by decide, by decide, by decide⟩, ?_, ?_, (by intro h; cases h), ?_⟩
+  · simp [exTreeP, TVal.WF, TFields.WF, TVals.WF, Scalar.WF, ValidWord, isDelim, isSpace, isPunct]
+  · exact ⟨⟨_, rfl, rfl, by decide, by decide, by decide⟩,
+      ⟨_, rfl, rfl, by decide, ⟨rfl, by decide, by decide, by decide⟩,
+        ⟨rfl, by decide, by decide, by decide⟩, trivial⟩, trivial⟩
+  · intro h
+    have h2 : (2 : Nat) ≤ 1 := (h rfl).2.1.1
+    exact absurd h2 (by decide)
+
+example : String.ofList (writeToString exOptsSL exTreeP) = "{ n: 0x2, xs: { [0x0]: 0x1, [0x2]: 0x3, } }" ∧
+    updateFromText exShapeP (writeToString exOptsSL exTreeP) =
+      .ok [("n".toList, .int 2), ("xs[0]".toList, .int 1), ("xs[2]".toList, .int 3)] [] ∧
+    String.ofList (writeToString exOptsML exTreeP) =
+      "{\n  n: 2  # 0x2\n  # bad: UNREADABLE\n  xs: {\n    [0]: 1  # 0x1\n    # [1]: UNREADABLE\n    [2]: 3  # 0x3\n    # [3]: UNREADABLE\n  }\n}" := by
+  decide +kernel
+
+example : String.ofList (writeToString exOptsML exTreeML) =
+      "{\n  k: -5\n  xs: {\n    # H\n    [0]: 72  # 0x48\n  }\n  s: {\n    b: false\n  }\n}" ∧
+    updateFromText exShapeML (writeToString exOptsML exTreeML) =
+      .ok [("k".toList, .int (-5)), ("xs[0]".toList, .int 72), ("s.b".toList, .bool false)] [] := by
+  decide +kernel
+
+/-! The writer model on the two views the repository's own tests pin for `allow_partial_output`
+(compiler/back_end/cpp/testcode/requires_test.cc, `WriteToString.NotOkFieldsAreNotWritten` and
+`NotOkArrayElementsAreNotWritten`; tests over literals): the model's text is the pinned text. -/
+def exPinnedFields : TVal :=
+  .struct (.cons "zero_through_nine".toList false (.scalar (.int .u8 0))
+    (.skip "ten_through_twenty".toList
+    (.cons "disjoint".toList false (.scalar (.int .u8 0))
+    (.skip "ztn_plus_ttt".toList
+    (.skip "alias_of_zero_through_nine".toList
+    (.cons "zero_through_nine_plus_five".toList false (.scalar (.int .i32 5)) .nil))))))
+def exPinnedElems : TVal :=
+  .struct (.cons "xs".toList false (.arr false
+    (.cons (.struct (.skip "x".toList .nil))
+    (.cons (.struct (.cons "x".toList false (.scalar (.int .u8 0)) .nil))
+    (.cons (.struct (.skip "x".toList .nil))
+    (.cons (.struct (.cons "x".toList false (.scalar (.int .u8 5)) .nil)) .nil))))) .nil)
+def exOptsDefault : Opts := ⟨false, false, .b10, false, [], []⟩
+
+example :
+    String.ofList (writeToString exOptsML exPinnedFields) =
+      "{\n  zero_through_nine: 0  # 0x0\n  # ten_through_twenty: UNREADABLE\n  disjoint: 0  # 0x0\n  # ztn_plus_ttt: UNREADABLE\n  # alias_of_zero_through_nine: UNREADABLE\n  zero_through_nine_plus_five: 5  # 0x5\n}" ∧
+    String.ofList (writeToString exOptsDefault exPinnedFields) =
+      "{ zero_through_nine: 0, disjoint: 0, zero_through_nine_plus_five: 5 }" ∧
+    String.ofList (writeToString exOptsML exPinnedElems) =
+      "{\n  xs: {\n    [0]: {\n      # x: UNREADABLE\n    }\n    [1]: {\n      x: 0  # 0x0\n    }\n    [2]: {\n      # x: UNREADABLE\n    }\n    [3]: {\n      x: 5  # 0x5\n    }\n  }\n}" ∧
+    String.ofList (writeToString exOptsDefault exPinnedElems) =
+      "{ xs: { [0]: { }, { x: 0 }, { }, { x: 5 } } }" := by
+  decide +kernel
+
 /-! ## The array reader refuses the multi-line writer's own output (open finding) -/
 
 def exArrShape : RShape := .struct (.cons "xs".toList (.arr 2 (.scalar (.int .u8 0 255))) .nil)
@@ -292,18 +469,26 @@ def exArrVal : TVal :=
 def exArrML : Opts := ⟨true, false, .b10, false, "  ".toList, []⟩
 def exArrSL : Opts := ⟨false, false, .b10, false, [], []⟩
 
-/-- `struct Foo: 0 [+2] UInt:8[2] xs`, buffer 01 02: the multi-line text
+/-- The boundary of `C06_text_roundtrip_partial`: `struct Foo: 0 [+2] UInt:8[2] xs`, buffer
+01 02.  Every hypothesis of the round-trip theorem holds except `noMultilineArray` (re-readable
+options, well-formed tree of the static shape), and the conclusion fails: the multi-line text
 `{\n  xs: {\n    [0]: 1\n    [1]: 2\n  }\n}` is rejected by the reader model
 (`ReadArrayFromTextStream` wants `,` or `}` after an element; the multi-line writer puts a
 line break), although its tokens are read back exactly (`C06_tokens_roundtrip`); the
 single-line text is accepted and yields the values.  Replayed on the real code on every run
 (finding `multiline-array-elements-not-comma-separated`). -/
 theorem C06_array_multiline_counterexample :
-    exArrML.Rereadable ∧ exArrVal.WF ∧
+    exArrML.Rereadable ∧ exArrVal.WF ∧ Matches exArrShape exArrVal ∧
+    ¬ noMultilineArray exArrML exArrVal ∧
     updateFromText exArrShape (writeToString exArrML exArrVal) = .fail ∧
     updateFromText exArrShape (writeToString exArrSL exArrVal) =
       .ok [("xs[0]".toList, .int 1), ("xs[1]".toList, .int 2)] [] := by
-  refine ⟨⟨by decide, by decide, by decide⟩, ?_, by decide +kernel, by decide +kernel⟩
-  simp [exArrVal, TVal.WF, TFields.WF, TVals.WF, Scalar.WF, ValidWord, isDelim, isSpace, isPunct]
+  refine ⟨⟨by decide, by decide, by decide⟩, ?_, ?_, ?_, by decide +kernel, by decide +kernel⟩
+  · simp [exArrVal, TVal.WF, TFields.WF, TVals.WF, Scalar.WF, ValidWord, isDelim, isSpace, isPunct]
+  · exact ⟨⟨_, rfl, rfl, by decide, ⟨rfl, by decide, by decide, by decide⟩,
+      ⟨rfl, by decide, by decide, by decide⟩, trivial⟩, trivial⟩
+  · intro h
+    have h2 : (2 : Nat) ≤ 1 := (h rfl).1.1
+    exact absurd h2 (by decide)
 
 end Emboss.Text
